@@ -30,9 +30,11 @@ ASSUMPTIONS = [
     "the header CONTAINER's iteration protocol (tuple, generator, one-shot iterator, list subclass / pair objects with impure __iter__) is outside Model/Task.v, whose start_response takes a pure list = the one snapshot the real start_response takes (fix b4f05b1); that the real code validates and sends the SAME snapshot is covered by K-task + the head-line search on scripted containers only",
     "str.capitalize / str.lower on arbitrary code points enter the theorems as Section variables with the hypothesis 'no CR, LF is produced from a string without CR, LF'; the hypothesis is tested on every run over all 0x110000 code points; the theorems are closed by a concrete instance that is exact below 256",
     "server configuration strings (ident, the date produced by build_http_date) contain no CR/LF and are latin-1",
-    "C08 is stated at the level of head lines: a header name containing ':' or ' ' yields one line, exactly name ': ' value",
-    "an application that survives a refusal is modelled as try: start_response(...) except BaseException: pass (ATryStart); in the model write() is available to every script (the real callable only after a call returned: the model admits more scripts than exist); a refused call is not atomic -- a status that passed its own checks and int() of a Content-Length pair preceding the refused pair stay in the task (C08_strict_status_refuted, C08_residue_instance): the search accepts such a status in the status line, never a refused string",
+    "header names are RFC 9110 tokens (anything else is refused since /repo fix 4bd53ee), so a head line 'name: value' is read back by a client as that name and that value",
+    "an application that survives a refusal is modelled as try: start_response(...) except BaseException: pass (ATryStart); in the model write() is available to every script (the real callable only after a call returned: the model admits more scripts than exist); a refused call is not atomic -- a status that passed its own checks stays in the task (C08_strict_status_refuted, C08_residue_instance; the int() of a Content-Length pair of the refused call stayed too until /repo fix 5926e3b): the search accepts such a status in the status line, never a refused string",
 ]
+
+TCHARS = set("!#$%&'*+-.^_`|~0123456789abcdefghijklmnopqrstuvwxyzABCDEFGHIJKLMNOPQRSTUVWXYZ")
 
 SERVER_NAMES = {"Date", "Server", "Via", "Connection", "Content-Length", "Transfer-Encoding"}
 
@@ -50,6 +52,8 @@ def acceptable(status, headers):
             return False
         if "\r" in k or "\n" in k or "\r" in v or "\n" in v:
             return False
+        if not k or any(c not in TCHARS for c in k):
+            return False          # PEP 3333: a valid field-name (RFC 9110 token); /repo fix 4bd53ee
         kl = k.lower()
         if kl in T.HOP:
             return False
@@ -99,13 +103,13 @@ def effective_request(case, residue=None):
                     return (status, pairs, complete, began, "raised")
                 if exc and began:
                     return (status, pairs, complete, began, "raised")
-                hs = [(T.real_obj(k), T.real_obj(v)) for k, v in hs]
+                hs = [(T.content_obj(k), T.content_obj(v)) for k, v in hs]
                 if exc:
                     pairs = []
                 complete = True
-                if not acceptable(T.real_obj(st), hs):
+                if not acceptable(T.content_obj(st), hs):
                     return (status, pairs, complete, began, "refused")
-                status = st
+                status = T.content_obj(st)
                 pairs = pairs + hs
                 del residue[:]
             elif a[0] == "T":
@@ -114,16 +118,16 @@ def effective_request(case, residue=None):
                     continue          # refused at the door, swallowed: nothing may change
                 if exc and began:
                     continue          # exc_info[1] re-raised and swallowed: nothing may change
-                hs = [(T.real_obj(k), T.real_obj(v)) for k, v in hs]
+                hs = [(T.content_obj(k), T.content_obj(v)) for k, v in hs]
                 if exc:
                     pairs = []
                 complete = True
-                if acceptable(T.real_obj(st), hs):
-                    status = st
+                if acceptable(T.content_obj(st), hs):
+                    status = T.content_obj(st)
                     pairs = pairs + hs
                     del residue[:]
-                elif clean_status(T.real_obj(st)):
-                    residue.append(st)
+                elif clean_status(T.content_obj(st)):
+                    residue.append(T.content_obj(st))
             elif a[0] == "W":
                 # write() emits the head, also for b""
                 began = True
